@@ -64,16 +64,22 @@ func (fan *CmdFan) GetRpm() (int, error) {
 		return 0, err
 	}
 
+	valueMu.Lock()
 	fan.Rpm = int(rpm)
+	valueMu.Unlock()
 
 	return int(rpm), nil
 }
 
 func (fan *CmdFan) GetRpmAvg() float64 {
+	valueMu.Lock()
+	defer valueMu.Unlock()
 	return float64(fan.Rpm)
 }
 
 func (fan *CmdFan) SetRpmAvg(rpm float64) {
+	valueMu.Lock()
+	defer valueMu.Unlock()
 	fan.Rpm = int(rpm)
 }
 
@@ -92,7 +98,9 @@ func (fan *CmdFan) GetPwm() (result int, err error) {
 		return 0, err
 	}
 
+	valueMu.Lock()
 	fan.Pwm = int(pwm)
+	valueMu.Unlock()
 
 	return int(pwm), nil
 }
